@@ -90,3 +90,9 @@ PROPS["C04"] = {
         {"name": "c04-convergence", "pkg": ROOT, "run": "TestVerifC04", "timeout": {"quick": 1200, "thorough": 3400}},
     ],
 }
+PROPS["C07"] = {
+    "level": "exploration",
+    "units": [
+        {"name": "c07-contact-lifecycle", "pkg": ROOT, "run": "TestVerifC07", "timeout": {"quick": 1200, "thorough": 3400}},
+    ],
+}
